@@ -187,6 +187,16 @@ where
             .ok_or(PlanningError::PlannerUninitialised)?;
         let goal = &pd.goal;
 
+        // The start state is the root of the tree and the first state of every returned path:
+        // refuse to plan from a start the validity checker rejects.
+        let vc = self
+            .validity_checker
+            .as_ref()
+            .ok_or(PlanningError::PlannerUninitialised)?;
+        if !vc.is_valid(&pd.start_states[0]) {
+            return Err(PlanningError::InvalidStartState);
+        }
+
         let start_time = Instant::now();
         let mut rng = self
             .rng
